@@ -18,7 +18,7 @@ Open Scope N_scope.
 
 (* mutual exclusion: at most one thread is between acquire and release, and it is
    the owner of the lock *)
-Theorem C14_mutex : forall c nsn0 s0 progs sched, bmc_ok c -> forall t1 t2 th1 th2,
+Theorem C14_mutex : forall c nsn0 s0 progs sched, bmc_ok c -> Forall (Forall cmd_ok) progs -> forall t1 t2 th1 th2,
   let g := exec c sched (init nsn0 s0 progs) in
   nth_error (g_thr g) t1 = Some th1 -> nth_error (g_thr g) t2 = Some th2 ->
   in_cs (t_pc th1) = true -> in_cs (t_pc th2) = true -> t1 = t2.
@@ -29,13 +29,19 @@ Print Assumptions C14_mutex.
    concatenation of complete exchanges [exch_tx] (a datagram of one thread, then - read
    by the same thread - the unrelated frame if the BMC sent one, and the BMC's reply to
    that very datagram); only while a thread holds the lock it may end with that
-   thread's still unanswered datagram (and the unrelated frame it has read so far) *)
+   thread's still unanswered datagram (and the Send Message acknowledges / the unrelated
+   frame it has read so far).  Requests may be bridged ([q_depth] Send Message wrappers: the
+   exchange then contains the BMC's acknowledges before the forwarded reply); [cmd_ok]: no
+   request is itself a Send Message. *)
 Theorem C14_exchanges_not_interleaved : forall c nsn0 s0 progs sched, bmc_ok c ->
+  Forall (Forall cmd_ok) progs ->
   let g := exec c sched (init nsn0 s0 progs) in
   complete_exchanges c 0 (rev (g_wire g)) \/
   exists t k s h q l, g_lock g = Some t /\ complete_exchanges c 0 l /\
-    (rev (g_wire g) = l ++ [Sent t k s h q] \/
-     rev (g_wire g) = l ++ [Sent t k s h q; Rcvd t (stale_frame (nsent l) h q)]).
+    ((exists a, (a <= q_depth q)%nat /\
+        rev (g_wire g) = l ++ Sent t k s h q :: repeat (Rcvd t (ack_frame (nsent l))) a) \/
+     rev (g_wire g) = l ++ Sent t k s h q :: exch_acks t (nsent l) q ++
+                           [Rcvd t (stale_frame (nsent l) h q)]).
 Proof. exact not_interleaved_all. Qed.
 Print Assumptions C14_exchanges_not_interleaved.
 
@@ -63,7 +69,8 @@ Print Assumptions C14_seq_increasing.
    exchange [exch_tx] (an unrelated frame sent first is read and dropped, never returned).
    This holds although two requests may carry the same IPMB sequence number (see the
    example below): next_sequence_number is read-modify-written outside the lock. *)
-Theorem C14_own_reply : forall c nsn0 s0 progs sched, bmc_ok c -> forall t th j o,
+Theorem C14_own_reply : forall c nsn0 s0 progs sched, bmc_ok c -> Forall (Forall cmd_ok) progs -> 
+  forall t th j o,
   let g := exec c sched (init nsn0 s0 progs) in
   nth_error (g_thr g) t = Some th -> nth_error (t_done th) j = Some o ->
   exists q r, o = Ok r /\ nth_error (t_reqs th) j = Some q /\
@@ -74,7 +81,7 @@ Print Assumptions C14_own_reply.
 
 (* no deadlock: as long as some thread has requests left, some thread can move; the
    queue of unmatched frames stays empty *)
-Theorem C14_no_deadlock : forall c nsn0 s0 progs sched, bmc_ok c ->
+Theorem C14_no_deadlock : forall c nsn0 s0 progs sched, bmc_ok c -> Forall (Forall cmd_ok) progs ->
   let g := exec c sched (init nsn0 s0 progs) in
   all_finished g = false -> exists t, step c g t <> None.
 Proof. exact no_deadlock_all. Qed.
@@ -86,9 +93,9 @@ Print Assumptions C14_no_deadlock.
    (payloads 0 and 1), session sequence 6 then 7 *)
 Example C14_duplicate_rq_seq :
   let g := exec (mkCfg 0 true [] []) [0;1;0;1;0;1;1;1;1;1;1;0;0;0;0;0]%nat
-                (init 0 5 [[mkTReq 6 1]; [mkTReq 6 1]]) in
-  rev (g_wire g) = [Sent 1%nat 0%nat 6 1 (mkTReq 6 1); Rcvd 1%nat (mkFrame 1 7 1 0);
-                    Sent 0%nat 0%nat 7 1 (mkTReq 6 1); Rcvd 0%nat (mkFrame 1 7 1 1)]
+                (init 0 5 [[mkTReq 6 1 0]; [mkTReq 6 1 0]]) in
+  rev (g_wire g) = [Sent 1%nat 0%nat 6 1 (mkTReq 6 1 0); Rcvd 1%nat (mkFrame 1 7 1 0);
+                    Sent 0%nat 0%nat 7 1 (mkTReq 6 1 0); Rcvd 0%nat (mkFrame 1 7 1 1)]
   /\ map t_done (g_thr g) = [[Ok (mkFrame 1 7 1 1)]; [Ok (mkFrame 1 7 1 0)]]
   /\ all_finished g = true /\ g_lock g = None.
 Proof. vm_compute. repeat split; reflexivity. Qed.
@@ -98,9 +105,9 @@ Proof. vm_compute. repeat split; reflexivity. Qed.
    gets its own reply *)
 Example C14_stale_frame_dropped :
   let c := mkCfg 1 true [0] [] in
-  let g := exec c [0;0;0;0;0;0;0;0;0]%nat (init 0 5 [[mkTReq 6 1]]) in
+  let g := exec c [0;0;0;0;0;0;0;0;0]%nat (init 0 5 [[mkTReq 6 1 0]]) in
   bmc_ok c
-  /\ rev (g_wire g) = [Sent 0%nat 0%nat 6 1 (mkTReq 6 1); Rcvd 0%nat (mkFrame 0 7 1 100);
+  /\ rev (g_wire g) = [Sent 0%nat 0%nat 6 1 (mkTReq 6 1 0); Rcvd 0%nat (mkFrame 0 7 1 100);
                        Rcvd 0%nat (mkFrame 1 7 1 0)]
   /\ map t_done (g_thr g) = [[Ok (mkFrame 1 7 1 0)]] /\ all_finished g = true /\ g_q g = [].
 Proof. split; [split; [right; cbn; auto | reflexivity]|]. vm_compute. repeat split; reflexivity. Qed.
@@ -110,8 +117,21 @@ Proof. split; [split; [right; cbn; auto | reflexivity]|]. vm_compute. repeat spl
    second datagram *)
 Example C14_lost_reply_repacked :
   let c := mkCfg 1 true [] [0] in
-  let g := exec c [0;0;0;0;0;0;0;0;0;0]%nat (init 0 5 [[mkTReq 6 1]]) in
-  rev (g_wire g) = [Sent 0%nat 0%nat 6 1 (mkTReq 6 1); Sent 0%nat 0%nat 7 1 (mkTReq 6 1);
+  let g := exec c [0;0;0;0;0;0;0;0;0;0]%nat (init 0 5 [[mkTReq 6 1 0]]) in
+  rev (g_wire g) = [Sent 0%nat 0%nat 6 1 (mkTReq 6 1 0); Sent 0%nat 0%nat 7 1 (mkTReq 6 1 0);
                     Rcvd 0%nat (mkFrame 1 7 1 1)]
   /\ map t_done (g_thr g) = [[Ok (mkFrame 1 7 1 1)]] /\ all_finished g = true.
+Proof. vm_compute. repeat split; reflexivity. Qed.
+
+(* a bridged request (two Send Message wrappers) next to the keep-alive: the extra unlocked
+   read, two acknowledges read without counting a retry (max_retries 0), then the reply *)
+Example C14_bridged_exchange :
+  let c := mkCfg 0 true [] [] in
+  let g := exec c [0;0;0;0;0;1;1;1;0;0;0;0;0;0;1;1;1;1;1]%nat
+                (init 0 5 [[mkTReq 10 16 2]; [mkTReq 6 1 0]]) in
+  rev (g_wire g) = [Sent 0%nat 0%nat 6 1 (mkTReq 10 16 2); Rcvd 0%nat (ack_frame 0); Rcvd 0%nat (ack_frame 0);
+                    Rcvd 0%nat (mkFrame 1 11 16 0);
+                    Sent 1%nat 0%nat 7 2 (mkTReq 6 1 0); Rcvd 1%nat (mkFrame 2 7 1 1)]
+  /\ map t_done (g_thr g) = [[Ok (mkFrame 1 11 16 0)]; [Ok (mkFrame 2 7 1 1)]]
+  /\ all_finished g = true.
 Proof. vm_compute. repeat split; reflexivity. Qed.
